@@ -439,6 +439,74 @@ func c08Scenarios() []scenario {
 		}
 		return b.String()
 	})
+	// ---- process history: a webhook whose body is a bare JSON value is saved as a result's extra, the session is written
+	// out, read back and resumed (so @webhook is recreated from the extra); then an unrelated session looks at JSON
+	// values of its own. Nothing the first session did may show in the second, or in a repetition of the first
+	for _, kind := range []string{"true", "false", "null", "number", "text", "emptyarray", "emptyobject", "array", "object"} {
+		kind := kind
+		add("engine/recreated-webhook-then-unrelated-session/"+kind, "values shared between sessions (JSON singletons, package-level objects)", func() string {
+			resetGenerators(6)
+			httpx.SetRequestor(&offlineRequestor{})
+			defer httpx.SetRequestor(httpx.DefaultRequestor)
+			flow := M{"uuid": flowUUID(1), "name": "Ctx", "spec_version": "13.6.0", "language": "eng", "type": "messaging", "nodes": []M{
+				{"uuid": nodeUUID(1, 1), "actions": []M{{"uuid": actionUUID(1, 1, 1), "type": "call_webhook", "method": "GET", "url": "http://example.com/bare/" + kind, "result_name": "hook"}},
+					"router": M{"type": "switch", "operand": "@input.text", "wait": M{"type": "msg"}, "default_category_uuid": catUUID(1, 1, 1), "cases": []M{},
+						"categories": []M{{"uuid": catUUID(1, 1, 1), "name": "All", "exit_uuid": exitUUID(1, 1, 1)}}},
+					"exits": []M{{"uuid": exitUUID(1, 1, 1), "destination_uuid": nodeUUID(1, 2)}}},
+				{"uuid": nodeUUID(1, 2), "actions": []M{{"uuid": actionUUID(1, 2, 1), "type": "send_msg", "text": "after @webhook.json | @webhook | @(json(legacy_extra))"}}, "exits": exitsFor(1, 2, 0)}}}
+			other := M{"uuid": flowUUID(2), "name": "Other", "spec_version": "13.6.0", "language": "eng", "type": "messaging", "nodes": []M{
+				{"uuid": nodeUUID(2, 1), "actions": []M{{"uuid": actionUUID(2, 1, 1), "type": "send_msg", "text": "@trigger.params.vip @trigger.params.no @(json(trigger.params)) @(parse_json(\"[true, false, null, 1, {}]\")) @(has_text(\"\")) @(json(object()))"}},
+					"exits": exitsFor(2, 1, 0)}}}
+			sa, err := loadAssets(mustJSON(M{"flows": []M{flow, other}}))
+			if err != nil {
+				return "ERR " + err.Error()
+			}
+			var b strings.Builder
+			emit := func(sp flows.Sprint) {
+				for _, e := range sp.Events() {
+					b.Write(jsonx.MustMarshal(e))
+					b.WriteByte('\n')
+				}
+			}
+			eng := newEngine(0, -1)
+			// (the unrelated session also runs first: the first execution in a process sees it before anything happened)
+			if trig0, err := readTrigger(sa, mustJSON(M{"type": "manual", "flow": M{"uuid": flowUUID(2), "name": "Other"}, "contact": contactJSON(), "triggered_on": "2018-07-06T12:00:00Z", "params": M{"vip": true, "no": false, "n": nil}})); err == nil {
+				if _, sp0, err := eng.NewSession(sa, trig0); err == nil {
+					emit(sp0)
+				}
+			}
+			trig, err := readTrigger(sa, mustJSON(M{"type": "manual", "flow": M{"uuid": flowUUID(1), "name": "Ctx"}, "contact": contactJSON(), "triggered_on": "2018-07-06T12:00:00Z", "params": M{"vip": true}}))
+			if err != nil {
+				return "ERR " + err.Error()
+			}
+			s, sp, err := eng.NewSession(sa, trig)
+			if err != nil {
+				return "ERR " + err.Error()
+			}
+			emit(sp)
+			s2, err := eng.ReadSession(sa, sessionJSON(s), assets.IgnoreMissing)
+			if err != nil {
+				return b.String() + "ERR read " + err.Error()
+			}
+			res, _ := readResume(sa, resumeJSON("msg", "hello", 1))
+			sp, err = s2.Resume(res)
+			if err != nil {
+				return b.String() + "ERR resume " + err.Error()
+			}
+			emit(sp)
+			b.Write(sessionJSON(s2))
+			trig2, err := readTrigger(sa, mustJSON(M{"type": "manual", "flow": M{"uuid": flowUUID(2), "name": "Other"}, "contact": contactJSON(), "triggered_on": "2018-07-06T12:00:00Z", "params": M{"vip": true, "no": false, "n": nil}}))
+			if err != nil {
+				return "ERR " + err.Error()
+			}
+			_, sp, err = eng.NewSession(sa, trig2)
+			if err != nil {
+				return b.String() + "ERR other " + err.Error()
+			}
+			emit(sp)
+			return b.String()
+		})
+	}
 	// ---- expressions over maps
 	ctx := types.NewXObject(map[string]types.XValue{"o": types.NewXObject(map[string]types.XValue{"b": types.NewXNumberFromInt(1), "a": types.NewXNumberFromInt(2), "C": types.NewXNumberFromInt(3), "c": types.NewXNumberFromInt(4), "B": types.NewXNumberFromInt(5)})})
 	for _, tpl := range []string{`@(parse_json("{\"a\":1,\"A\":2,\"b\":3,\"B\":4}").a)`, `@(parse_json("{\"a\":1,\"A\":2,\"b\":3,\"B\":4}").B)`, `@(json(parse_json("{\"b\":1,\"a\":2,\"c\":[{\"z\":1,\"y\":2}]}")))`,
